@@ -107,6 +107,16 @@ static auto make_e() { return parser(vexpr, terms('a', 'b', 's', '+'), nterms(ve
     vexpr('s') >= [](skip) -> std::vector<int>& { return g_static_tab; },
     vexpr(vexpr, '+', vexpr) >= [](std::vector<int>&& x, skip, std::vector<int>&& y) { x.insert(x.end(), y.begin(), y.end()); return std::move(x); })); }
 
+// sixth grammar: value types that look like the parser's own result machinery - a root of type bool (a successful parse of "0" is an engaged optional holding
+// false), a root of type std::optional<int> (an engaged optional holding a disengaged one), and a std::string_view nonterminal built without a functor from
+// a regex term (the very slice of the caller's buffer)
+constexpr nterm<bool> broot("broot"); constexpr nterm<std::optional<int>> oroot("oroot"); constexpr nterm<std::string_view> svroot("svroot");
+constexpr char sv_pat[] = "[xy]+"; constexpr regex_term<sv_pat> sv_word("word");
+static auto make_b() { return parser(broot, terms('0', '1', '!'), nterms(broot), rules(broot('0') >= val(false), broot('1') >= val(true), broot('!', broot) >= [](skip, bool b) { return !b; })); }
+static auto make_o() { return parser(oroot, terms('n', 'v', '+'), nterms(oroot), rules(oroot('n') >= [](skip) { return std::optional<int>(); }, oroot('v') >= [](skip) { return std::optional<int>(7); },
+    oroot(oroot, '+', oroot) >= [](std::optional<int> a, skip, std::optional<int> b) { return a && b ? std::optional<int>(*a + *b) : std::optional<int>(); })); }
+static auto make_sv() { return parser(svroot, terms(sv_word), nterms(svroot), rules(svroot(sv_word))); }
+
 int main(int argc, char** argv) {
     int n = argc > 1 ? std::atoi(argv[1]) : 5;
     static const auto p = make_p();
@@ -163,6 +173,30 @@ int main(int argc, char** argv) {
             if (!thrown.empty()) { ++fails; if (first.empty()) first = "deep right recursion, " + std::to_string(len) + " tokens: parse threw " + thrown; }
             else if (!r || *r != want) { ++fails; if (first.empty()) first = "deep right recursion, " + std::to_string(len) + " tokens: the functors did not receive their own children's values (result differs from the reversed input" + (r ? " at position " + std::to_string(std::mismatch(r->begin(), r->end(), want.begin(), want.end()).first - r->begin()) : std::string(", empty")) + ")"; }
             else ++accepted;
+        }
+    }
+    {   // grammar 6 on every input up to length 4
+        static const auto b = make_b(); static const auto o = make_o(); static const auto sv = make_sv();
+        std::vector<std::string> in6{""}; for (size_t lo = 0, l = 0; l < 4; ++l) { size_t hi = in6.size(); for (size_t i = lo; i < hi; ++i) for (char c : {'0', '1', '!', 'n', 'v', '+', 'x', 'y', ' '}) in6.push_back(in6[i] + c); lo = hi; }
+        for (const std::string& in : in6) {
+            std::string t; for (char c : in) if (c != ' ') t += c;
+            {   ++cases; ++checks;   // bool root: !*[01]
+                size_t k = 0; while (k < t.size() && t[k] == '!') ++k; bool wok = k + 1 == t.size() && (t[k] == '0' || t[k] == '1'); bool want = wok && ((t[k] == '1') != (k % 2 == 1));
+                auto r = b.parse(string_buffer(std::string(in)));
+                if (r.has_value() != wok || (wok && *r != want)) { ++fails; if (first.empty()) first = "grammar 6 (bool root) input '" + in + "': " + (r ? (*r ? "true" : "false") : "no value") + ", expected " + (wok ? (want ? "true" : "false") : "no value"); }
+                if (wok) ++accepted; }
+            {   ++cases; ++checks;   // optional<int> root: [nv](+[nv])*
+                bool wok = t.size() % 2 == 1; bool all = true; int sum = 0; for (size_t i = 0; i < t.size() && wok; ++i) { if (i % 2) { if (t[i] != '+') wok = false; } else if (t[i] == 'v') sum += 7; else if (t[i] == 'n') all = false; else wok = false; }
+                auto r = o.parse(string_buffer(std::string(in)));
+                bool ok = r.has_value() == wok && (!wok || (r->has_value() == all && (!all || **r == sum)));
+                if (!ok) { ++fails; if (first.empty()) first = "grammar 6 (std::optional<int> root) input '" + in + "': " + (r ? (*r ? "value " + std::to_string(**r) : std::string("engaged result holding an empty optional")) : std::string("no value")) + ", expected " + (wok ? (all ? "value " + std::to_string(sum) : std::string("engaged result holding an empty optional")) : std::string("no value")); }
+                if (wok) ++accepted; }
+            {   ++cases; ++checks;   // string_view root without functor: the slice itself
+                size_t a = in.find_first_not_of(' '); size_t e = in.find_last_not_of(' '); bool wok = a != std::string::npos && in.substr(a, e - a + 1).find_first_not_of("xy") == std::string::npos;
+                std::string held(in); auto r = sv.parse(string_view_buffer(std::string_view(held)));
+                bool ok = r.has_value() == wok && (!wok || (r->data() == held.data() + a && r->size() == e - a + 1));
+                if (!ok) { ++fails; if (first.empty()) first = "grammar 6 (std::string_view root built from a regex term without functor) input '" + in + "': the result is not the slice of the caller's buffer"; }
+                if (wok) ++accepted; }
         }
     }
     {   // grammar 5 on every input up to length 5, each parsed twice with the same context
